@@ -131,6 +131,8 @@ class Args:
         if spec == 'op':
             return p(['+=', '-=', '*=', '/=', '%=', '+'])
         if spec == 'list':
+            if self.n(40) == 0:
+                return list(range(10001 + self.n(3)))      # a host list beyond the cap
             return [self.any(1) for _ in range(self.n(5))]
         if spec == 'tuple':
             return tuple(self.any(1) for _ in range(self.n(4)))
@@ -142,8 +144,13 @@ class Args:
             return [[self.any(2) for _ in range(self.n(3))] for _ in range(1 + self.n(3))] if self.n(2) else \
                 {'a': [self.any(2) for _ in range(self.n(3))], 'b': {'c': self.any(2)}}
         if spec == 'dict':
+            if self.n(5) == 0:
+                # host dicts may be keyed by non-strings
+                return {p([1, 2, D(3), True, None, (1, 2), 'a', 2.5]): self.any(1) for _ in range(1 + self.n(4))}
             return {p(['a', 'b', 'c', 'k', '1', 'zz']): self.any(1) for _ in range(self.n(5))}
         if spec == 'dictnum':
+            if self.n(6) == 0:
+                return {p([1, 2, D(3), 0, 7, 'a']): self.num() for _ in range(1 + self.n(4))}
             return {p(['a', 'b', 'c', 'k', '1', 'zz']): self.num() for _ in range(self.n(5))}
         if spec == 'pairs':
             return [[p(['a', 'b', 1, D(2)]), self.any(2)] for _ in range(self.n(4))]
